@@ -289,6 +289,13 @@ def native_snapshot_compare(cfgname, n, hist, pattern, conc):
             if not a: return True, "snapshot %d of the archive does not load (history %s)" % (k, json.dumps(hist)), 'C06:load:' + hist_key(hist)
             if not b: return False, "stand-alone file did not load", ''
             dd = df(a, b, 2)
+            # independent of the library's own comparison (which shares code with the delta encoder): time, step and particle data bit for bit
+            na_, nb_ = NSim(N, a), NSim(N, b)
+            if not dd:
+                if na_.get('N') != nb_.get('N') or na_.getbits('t') != nb_.getbits('t') or na_.getbits('dt') != nb_.getbits('dt'): dd = 1
+                else:
+                    for i_ in range(na_.get('N')):
+                        if any(na_.particle(i_).getbits(c_) != nb_.particle(i_).getbits(c_) for c_ in ('x', 'y', 'z', 'vx', 'vy', 'vz', 'm', 'r')): dd = 1
             lib.reb_simulation_free(a); lib.reb_simulation_free(b)
             if dd: return True, "snapshot %d of the archive differs from the live state saved at the same time (history %s)" % (k, json.dumps(hist)), 'C06:content:' + hist_key(hist)
         return False, "native archive matches the live states", ''
